@@ -87,11 +87,27 @@ def sample_traces(entries, n=3):
 
 
 # ======================================================================================= C01
+def many_terms_grammar():
+    """66 declared terms: the sets of terms the analyser works with (lookaheads, FIRST) span more than one 64-bit word; the
+    terms with the highest indexes reach a lookahead only THROUGH a nonterminal"""
+    ts = [chr(c) for c in range(48, 48 + 66)]
+    return gram.Grammar('many_terms', ['S', 'A', 'C', 'D'], ts, 'S',
+                        [('S', ['A', 'C'], 0), ('S', ['S', ts[1], 'D'], 0), ('A', [ts[0]], 0), ('A', [ts[63], 'A'], 0),
+                         ('C', [ts[64]], 0), ('C', [ts[65], ts[2]], 0), ('D', ['C', ts[62]], 0), ('D', [], 0)])
+
+
+def many_terms_inputs(g):
+    t = [ord(c) for c in g.ts]
+    pool = [t[0], t[1], t[2], t[62], t[63], t[64], t[65], t[30]]
+    return [s for s in gram.all_strings(pool, 4)]
+
+
 def c01_corpus(tier, seed):
     rng = random.Random(seed)
     entries = []
     for g in catalogue('lr1'):
         entries += entries_for(g)
+    entries.append(pipeline.gen_entry(many_terms_grammar()))
     # small-scope enumeration (seed independent) through the host TUs
     if tier == 'quick':
         fams = [gengram.small_grammars(stride=17, limit=160, max_rules=3, max_rhs=2),
@@ -128,6 +144,9 @@ def check_C01(tier, seed):
     rng = random.Random(seed * 7 + 1)
     for e in entries:
         cap = 700 if tier == 'quick' else 3000
+        if e.g.name == 'many_terms':
+            pipeline.add_jobs(e, many_terms_inputs(e.g))
+            continue
         pipeline.add_jobs(e, all_inputs(e.g, L if len(e.g.ts) <= 3 else L - 1, cap))
         for s in gengram.sentences(e.g, rng, 4 if tier == 'quick' else 20, max_len=30 if tier == 'quick' else 120):
             pipeline.add_jobs(e, [s], tag='s')
@@ -526,6 +545,9 @@ def check_C09(tier, seed):
         pipeline.add_jobs(el, ins, verbose=False)
         pipeline.add_jobs(el, ins[::5], verbose=True)
     unknown = [ord('?'), 32, 0]
+    emany = pipeline.gen_entry(many_terms_grammar())
+    pipeline.add_jobs(emany, many_terms_inputs(emany.g), verbose=False)
+    pipeline.add_jobs(emany, many_terms_inputs(emany.g)[::5], verbose=True)
     for ei, e in enumerate(entries):
         if ei % (7 if tier == 'quick' else 2) == 0:
             byte_sweep(e)
@@ -537,7 +559,7 @@ def check_C09(tier, seed):
                 m = list(s); m[rng.randrange(len(m))] = rng.choice([ord(c) for c in e.g.ts] + [ord('?')])
                 pipeline.add_jobs(e, [m], tag='m', verbose=False)
                 pipeline.add_jobs(e, [s[:rng.randrange(len(s))]], tag='p', verbose=False)
-    entries += lex_entries
+    entries += lex_entries + [emany]
     res, work = prun.run(entries, 'C09', design_L=L if tier == 'quick' else 5, design_ws=unknown[:2], do_product=True,
                          tlc_procs=4 if tier == 'quick' else 8, tlc_workers=4 if tier == 'quick' else 2)
     if res.design_errors:
@@ -594,6 +616,8 @@ def check_C10(tier, seed):
         ('kw_prefix', [lxl.S('ab'), lxl.S('abcd'), lxl.R('[c-z]')], 'abcx abcd\nabc\nab'),
         ('multiline', [lxl.S('a\nb'), lxl.C('a'), lxl.C('b'), lxl.C('\n')], 'a\nb a\na\nb\nb'),
         ('strlit', [lxl.R('"[^"]*"'), lxl.R('[a-z]+')], 'x "a\nb\n" y "" "z'),
+        # bytes >= 0x80 inside lexemes (every byte but the newline advances the column by one: no notion of code points)
+        ('highbytes', [lxl.R('"[^"]*"'), lxl.R('[a-z]+'), lxl.R('[\\x80-\\xff]+')], 'x "\x80\xbf\xc3\xa9" y \xe2\x82\xac z\n"\xbf" q'),
     ]
     lex_entries = []
     for name, ts, sample in lexsets:
@@ -1343,8 +1367,9 @@ def check_C04(tier, seed):
     # repetition counts of several digits: the pattern's meaning (RegexSyntax!Doc) against the lexemes really delivered
     rep_inputs = {'[0-9]{12}': [[0x31] * n for n in (11, 12, 13, 21, 24)] + [[0x31] * 12 + [0x2d] + [0x32] * 12],
                   'a{10}': [[0x61] * n for n in (1, 9, 10, 11, 20)] + [[0x61] * 9 + [0x62]],
-                  'x{101}': [[0x78] * n for n in (11, 100, 101, 102, 202)]}
-    pick += [j for j in good if j[1] in lxl.FAMILIES[-3:] and j not in pick]
+                  'x{101}': [[0x78] * n for n in (11, 100, 101, 102, 202)],
+                  '[\\x80-\\xFF]+': [[0xc3, 0xa9], [0xff], [0x76], [0x80, 0xfe, 0x61, 0x4f]], '\\x4F': [[0x4f], [0x56], [0x4f, 0x4f]]}
+    pick += [j for j in good if j[1] in lxl.FAMILIES[-4:] and j not in pick]
     entries = []
     seen_pick = set()
     for (lid, ts, _) in pick:
@@ -1619,7 +1644,8 @@ def check_C07(tier, seed):
     grams = [cat[n] for n in names if n in cat]
     entries, cases_by = [], {}
     for g in grams:
-        e = pipeline.gen_entry(g, gid=g.name + '@ct')
+        # every third rule has no functor: its left-side value is constructed from the right-side values, in their order
+        e = pipeline.gen_entry(g, gid=g.name + '@ct', dflt=[i for i in range(len(g.rules)) if i % 3 == 2])
         entries.append(e)
         alpha = [ord(t) for t in g.ts]
         ins = []
@@ -1691,7 +1717,7 @@ def check_C07(tier, seed):
             if hasattr(e, 'lexterms'):
                 f.write(gen_ct.lex_tu(e.lexterms, gen_tu.lex_rules(len(e.lexterms), getattr(e, 'lexshape', 'list')), cases))
             else:
-                f.write(gen_ct.tu(e.g, cases))
+                f.write(gen_ct.tu(e.g, cases, getattr(e, 'dflt', ())))
         tus.append((e, cases, src))
     inc = os.path.join(vlib.REPO, 'include')
 
